@@ -19,6 +19,8 @@ package main
 //                 single-field tamperings                              vs cases 20..29
 
 import (
+	"sync/atomic"
+	"sync"
 	"bytes"
 	"crypto/hmac"
 	"crypto/sha256"
@@ -1413,6 +1415,45 @@ func streamC10Bdhke(sink *Sink, rng *rand.Rand, tier string, scratch string) {
 	one := cryBytes32(big.NewInt(1))
 	two := cryBytes32(big.NewInt(2))
 	nm1 := cryBytes32(new(big.Int).Sub(cryN, big.NewInt(1)))
+
+	// completeness does not depend on who else is signing: the mint signs outside any lock, so several goroutines sign, prove and
+	// verify at once; every honest proof must verify (a search for a failing schedule, not a proof: the theorems are about one call)
+	{
+		workers, rounds := 8, 150
+		if tier == "thorough" {
+			rounds = 1500
+		}
+		var bad int64
+		var firstBad atomic.Value
+		var wg sync.WaitGroup
+		for g := 0; g < workers; g++ {
+			wg.Add(1)
+			go func(g int) {
+				defer wg.Done()
+				for i := 0; i < rounds; i++ {
+					kb := sha256.Sum256([]byte(fmt.Sprintf("conc-k-%d-%d", g, i)))
+					k := secp256k1.PrivKeyFromBytes(kb[:])
+					B_, _, err := crypto.BlindMessage(fmt.Sprintf("conc-secret-%d-%d", g, i), k)
+					if err != nil {
+						continue
+					}
+					C_ := crypto.SignBlindedMessage(B_, k)
+					e, sc := crypto.GenerateDLEQ(k, B_, C_)
+					if !crypto.VerifyDLEQ(e, sc, k.PubKey(), B_, C_) {
+						if atomic.AddInt64(&bad, 1) == 1 {
+							firstBad.Store(fmt.Sprintf("worker %d round %d", g, i))
+						}
+					}
+				}
+			}(g)
+		}
+		wg.Wait()
+		sink.StatN("concurrent DLEQ generate+verify rounds", workers*rounds)
+		if bad > 0 {
+			sink.Violate("c10-dleq-rejected-under-concurrency", fmt.Sprintf("%d of %d honest DLEQ proofs generated and verified by %d goroutines at once were rejected (first: %v)", bad, workers*rounds, workers, firstBad.Load()),
+				"concurrent GenerateDLEQ/VerifyDLEQ", nil)
+		}
+	}
 
 	// crypto/bdhke_test.go: TestBlindMessage / TestSignBlindedMessage / TestVerify
 	w.full("test_message", one, one, two, "vector")
